@@ -1,1 +1,48 @@
-// access to private items of the parent module (compiled only under --cfg rustdds_verif)
+// access to private items of security/access_control/access_control_builtin.rs
+use super::*;
+use super::{
+  domain_governance_document::DomainGovernanceDocument,
+  domain_participant_permissions_document::{Action, DomainParticipantPermissions},
+  s_mime_config_parser::SignedDocument,
+};
+
+impl AccessControlBuiltin {
+  /// What `validate_local_permissions` stores once both documents have been
+  /// verified: the parsed permissions under `subject`, and the governance domain
+  /// rule for `domain_id` (None: no rule applies to the domain).
+  pub(crate) fn verif_install(
+    &mut self,
+    subject: &str,
+    permissions_xml: &str,
+    governance_xml: &str,
+    domain_id: u16,
+  ) -> Result<Option<PermissionsHandle>, String> {
+    let perms = DomainParticipantPermissions::from_xml(permissions_xml).map_err(|e| format!("permissions: {e:?}"))?;
+    let gov = DomainGovernanceDocument::from_xml(governance_xml).map_err(|e| format!("governance: {e:?}"))?;
+    let Some(rule) = gov.find_rule(domain_id).cloned() else { return Ok(None) };
+    let dn = DistinguishedName::parse(subject).map_err(|e| format!("subject: {e:?}"))?;
+    let h = self.generate_permissions_handle();
+    self.domain_rules.insert(h, rule);
+    self.domain_participant_permissions.insert(h, (dn, perms));
+    Ok(Some(h))
+  }
+
+  /// `Grant::check_action` of the subject's currently valid grant (None: no valid grant)
+  pub(crate) fn verif_check_action(&self, h: PermissionsHandle, action: u8, domain_id: u16, topic: &str, partitions: &[&str]) -> Option<bool> {
+    let a = match action {
+      0 => Action::Publish,
+      1 => Action::Subscribe,
+      _ => Action::Relay,
+    };
+    self.get_grant(&h).ok().map(|g| g.check_action(a, domain_id, topic, partitions, &[]).into())
+  }
+}
+
+impl AccessControlBuiltin {
+  /// `SignedDocument::from_bytes` + `verify_signature`: the verified content, or why not
+  pub(crate) fn verif_signed_content(input: &[u8], ca_pem: &[u8]) -> Result<Vec<u8>, String> {
+  let ca = Certificate::from_pem(ca_pem).map_err(|e| format!("MACHINERY ca: {e:?}"))?;
+  let doc = SignedDocument::from_bytes(input).map_err(|e| format!("parse: {e:?}"))?;
+  doc.verify_signature(&ca).map(|c| c.as_ref().to_vec()).map_err(|e| format!("verify: {}", e.msg))
+}
+}
